@@ -46,13 +46,23 @@ WITNESS(thread_migrate_cpu);
 int w_has_cpu, w_newstate, w_oldstate, w_tid, w_cpu_null;
 int w_st_dirty, w_tid_dirty, w_cpu_dirty;
 long w_gindex;
+/* replay witnesses: the whole pre-state of the channels the function writes, and the
+ * (possibly inconsistent) redundant flags of the thread */
+#define W_CHAN_DECL(p) int w_##p##_type, w_##p##_dw, w_##p##_ad, w_##p##_id, w_##p##_hascb; long w_##p##_ltype, w_##p##_li
+#define W_CHAN_BIND(p, c) (w_##p##_type == (int) (c)->type && w_##p##_dw == (c)->prop[CHAN_DIRTY_WRITE] && \
+	w_##p##_ad == (c)->prop[CHAN_ALLOW_DUP] && w_##p##_id == (c)->prop[CHAN_IGNORE_DUP] && \
+	w_##p##_hascb == ((c)->dirty_cb != NULL) && w_##p##_ltype == (c)->last_value.type && w_##p##_li == (c)->last_value.i)
+W_CHAN_DECL(stc); W_CHAN_DECL(tidc); W_CHAN_DECL(cpuc);
+int w_old_running, w_old_active;
 
 /* ---------------- thread_set_state ---------------- */
 int cr_thread_set_state(struct thread *th, enum thread_state state)
 __CPROVER_requires(__CPROVER_is_fresh(th, sizeof(*th)) && CH_CB_OK(CH_ST(th)) && CH_CB_OK(CH_TID(th)) && CNT_PRE(2000000u))
 __CPROVER_requires(WBIND(thread_set_state, w_has_cpu == (th->cpu != NULL) && w_newstate == (int) state &&
 	w_oldstate == (int) th->state && w_tid == th->tid &&
-	w_st_dirty == th->chan[TH_CHAN_STATE].is_dirty && w_tid_dirty == th->chan[TH_CHAN_TID].is_dirty))
+	w_st_dirty == th->chan[TH_CHAN_STATE].is_dirty && w_tid_dirty == th->chan[TH_CHAN_TID].is_dirty &&
+	w_old_running == th->is_running && w_old_active == th->is_active &&
+	W_CHAN_BIND(stc, CH_ST(th)) && W_CHAN_BIND(tidc, CH_TID(th))))
 __CPROVER_assigns(th->cpu != NULL: th->state, th->is_running, th->is_active)
 __CPROVER_assigns(th->cpu != NULL && CH_WRITES(CH_ST(th), th->chan[TH_CHAN_STATE].is_dirty, VALUE_INT64, state):
 	th->chan[TH_CHAN_STATE].is_dirty, th->chan[TH_CHAN_STATE].data.value)
@@ -91,7 +101,7 @@ int cr_thread_set_cpu(struct thread *th, struct cpu *cpu)
 __CPROVER_requires(__CPROVER_is_fresh(th, sizeof(*th)) && (cpu == NULL || __CPROVER_is_fresh(cpu, sizeof(*cpu))))
 __CPROVER_requires(CH_CB_OK(CH_CPU(th)) && CNT_PRE(2000000u))
 __CPROVER_requires(WBIND(thread_set_cpu, w_has_cpu == (th->cpu != NULL) && w_cpu_null == (cpu == NULL) &&
-	w_cpu_dirty == th->chan[TH_CHAN_CPU].is_dirty && (cpu == NULL || w_gindex == cpu->gindex)))
+	w_cpu_dirty == th->chan[TH_CHAN_CPU].is_dirty && (cpu == NULL || w_gindex == cpu->gindex) && W_CHAN_BIND(cpuc, CH_CPU(th))))
 __CPROVER_assigns(cpu != NULL && th->cpu == NULL: th->cpu)
 __CPROVER_assigns(cpu != NULL && th->cpu == NULL && CH_WRITES(CH_CPU(th), th->chan[TH_CHAN_CPU].is_dirty, VALUE_INT64, cpu->gindex):
 	th->chan[TH_CHAN_CPU].is_dirty, th->chan[TH_CHAN_CPU].data.value)
@@ -115,7 +125,8 @@ __CPROVER_ensures(CB_DELTA_OK && g_cb_calls - __CPROVER_old(g_cb_calls) == ((cpu
 int cr_thread_unset_cpu(struct thread *th)
 __CPROVER_requires(__CPROVER_is_fresh(th, sizeof(*th)))
 __CPROVER_requires(CH_CB_OK(CH_CPU(th)) && CNT_PRE(2000000u))
-__CPROVER_requires(WBIND(thread_unset_cpu, w_has_cpu == (th->cpu != NULL) && w_cpu_dirty == th->chan[TH_CHAN_CPU].is_dirty))
+__CPROVER_requires(WBIND(thread_unset_cpu, w_has_cpu == (th->cpu != NULL) && w_cpu_dirty == th->chan[TH_CHAN_CPU].is_dirty &&
+	W_CHAN_BIND(cpuc, CH_CPU(th))))
 __CPROVER_assigns(th->cpu != NULL: th->cpu)
 __CPROVER_assigns(th->cpu != NULL && CH_WRITES(CH_CPU(th), th->chan[TH_CHAN_CPU].is_dirty, VALUE_NULL, 0):
 	th->chan[TH_CHAN_CPU].is_dirty, th->chan[TH_CHAN_CPU].data.value)
@@ -136,7 +147,7 @@ int cr_thread_migrate_cpu(struct thread *th, struct cpu *cpu)
 __CPROVER_requires(__CPROVER_is_fresh(th, sizeof(*th)) && __CPROVER_is_fresh(cpu, sizeof(*cpu)))
 __CPROVER_requires(CH_CB_OK(CH_CPU(th)) && CNT_PRE(2000000u))
 __CPROVER_requires(WBIND(thread_migrate_cpu, w_has_cpu == (th->cpu != NULL) &&
-	w_cpu_dirty == th->chan[TH_CHAN_CPU].is_dirty && w_gindex == cpu->gindex))
+	w_cpu_dirty == th->chan[TH_CHAN_CPU].is_dirty && w_gindex == cpu->gindex && W_CHAN_BIND(cpuc, CH_CPU(th))))
 __CPROVER_assigns(th->cpu != NULL: th->cpu)
 __CPROVER_assigns(th->cpu != NULL && CH_WRITES(CH_CPU(th), th->chan[TH_CHAN_CPU].is_dirty, VALUE_INT64, cpu->gindex):
 	th->chan[TH_CHAN_CPU].is_dirty, th->chan[TH_CHAN_CPU].data.value)
